@@ -49,6 +49,16 @@ func (t *ToyService) Obj(a ToyArg, list []string, f float64, b bool) (int, error
 	t.Calls["Obj"]++
 	return len(list), nil
 }
+
+// free-form JSON values: a parameter of interface type is a parameter like any other
+func (t *ToyService) Any(v interface{}, n int) (string, error) {
+	t.Calls["Any"]++
+	return fmt.Sprint(v, n), nil
+}
+func (t *ToyService) CtxAny(ctx context.Context, v interface{}) (string, error) {
+	t.Calls["CtxAny"]++
+	return fmt.Sprint(v), nil
+}
 func (t *ToyService) URL() string    { t.Calls["URL"]++; return "u" }
 func (t *ToyService) secret() string { t.Calls["secret"]++; return "s" }
 
@@ -71,7 +81,7 @@ func lcfirst(s string) string {
 	return string(r)
 }
 
-var toyRPCable = []string{"Foo", "Bar", "Opt", "Obj", "URL", "Deep"}
+var toyRPCable = []string{"Foo", "Bar", "Opt", "Obj", "URL", "Deep", "Any", "CtxAny"}
 
 func c16Toy() vh.Unit {
 	return vh.Unit{Name: "toy/names-and-allow-lists", Run: func(u *vh.U) {
@@ -176,14 +186,16 @@ func c16Params() vh.Unit {
 			return
 		}
 		methods := map[string][]reflect.Type{
-			"foo":  {reflect.TypeOf(""), reflect.TypeOf(0)},
-			"bar":  {},
-			"opt":  {reflect.TypeOf(""), reflect.TypeOf((*int)(nil))},
-			"obj":  {reflect.TypeOf(ToyArg{}), reflect.TypeOf([]string{}), reflect.TypeOf(1.5), reflect.TypeOf(true)},
-			"uRL":  {},
-			"deep": {reflect.TypeOf(0)},
+			"foo":    {reflect.TypeOf(""), reflect.TypeOf(0)},
+			"bar":    {},
+			"opt":    {reflect.TypeOf(""), reflect.TypeOf((*int)(nil))},
+			"obj":    {reflect.TypeOf(ToyArg{}), reflect.TypeOf([]string{}), reflect.TypeOf(1.5), reflect.TypeOf(true)},
+			"uRL":    {},
+			"deep":   {reflect.TypeOf(0)},
+			"any":    {reflect.TypeOf((*interface{})(nil)).Elem(), reflect.TypeOf(0)},
+			"ctxAny": {reflect.TypeOf((*interface{})(nil)).Elem()},
 		}
-		goName := map[string]string{"foo": "Foo", "bar": "Bar", "opt": "Opt", "obj": "Obj", "uRL": "URL", "deep": "Deep"}
+		goName := map[string]string{"foo": "Foo", "bar": "Bar", "opt": "Opt", "obj": "Obj", "uRL": "URL", "deep": "Deep", "any": "Any", "ctxAny": "CtxAny"}
 		for name, types := range methods {
 			n := len(types)
 			var combos [][]string
@@ -541,7 +553,7 @@ func init() {
 			"'wrongly typed' means encoding/json cannot decode the value into the declared Go type",
 		},
 		Units: func(tier string) []vh.Unit {
-			return []vh.Unit{c16Toy(), c16Params(), c16Prod(), c16Binary()}
+			return []vh.Unit{c16Toy(), c16Params(), c16Prod(), c16Binary(), c16AgentReverse()}
 		},
 	})
 }
